@@ -178,14 +178,32 @@ def planar_wrapper(ctx):
         dimv = SV(_z3.Int("dim"))
         built = []
 
-        class PVec:
-            """the parameter vector (length 2 dim + 1): only slicing by dim is allowed"""
+        L = 2 * dimv.e + 1  # length of the parameter vector
 
-            def __init__(self, src):
+        class PVec:
+            """a contiguous piece [lo, hi) of the parameter vector of one source (stored array / conditioner output)"""
+
+            def __init__(self, src, lo=None, hi=None):
                 self.src = src
+                self.lo = _z3.IntVal(0) if lo is None else lo
+                self.hi = L if hi is None else hi
+
+            def _abs(self, i):
+                i = lift(i)
+                n_ = self.hi - self.lo
+                return self.lo + _z3.If(i < 0, i + n_, i)
 
             def __getitem__(self, idx):
-                return ("slice", self.src, idx)
+                if isinstance(idx, slice):
+                    if idx.step is not None:
+                        raise Untranslatable("strided slice of the parameter vector")
+                    lo_ = self.lo if idx.start is None else self._abs(idx.start)
+                    hi_ = self.hi if idx.stop is None else self._abs(idx.stop)
+                    return PVec(self.src, lo_, hi_)
+                return ("entry", self.src, _z3.simplify(self._abs(idx)))
+
+            def key(self):
+                return ("slice", self.src, str(_z3.simplify(self.lo)), str(_z3.simplify(self.hi)))
 
         class UP:
             def __init__(self, w, u, bias, negative_slope=None):
@@ -224,8 +242,8 @@ def planar_wrapper(ctx):
                 continue
             w, u, b, s = built[0].args
             src = stored.src if cond is None else ("conditioner", cond)
-            same_src = all(isinstance(t, tuple) and t[0] == "slice" and t[1] == src for t in (w, u, b))
+            same_src = all((isinstance(t, PVec) and t.src == src) or (isinstance(t, tuple) and t[0] == "entry" and t[1] == src) for t in (w, u, b))
             ctx.oblige(f"C03/Planar.{meth}[{cname}]/post/parameters_from_{'the_conditioner_at_the_callers_condition' if cond is not None else 'the_stored_vector'}", bool(same_src) and s is o.negative_slope, [], props, kind="struct", fn=f"{PQ}.get_planar", replay=dict(kind="simple", cls="Planar", vars={}))
-            argsets.append((meth, tuple(repr(t) for t in (w, u, b))))
+            argsets.append((meth, tuple(repr(t.key() if isinstance(t, PVec) else (t[0], t[1], str(t[2]))) for t in (w, u, b))))
         ctx.oblige(f"C01/Planar[{cname}]/post/all_methods_build_the_same_planar_bijection", len(argsets) == 4 and len({a_ for _m, a_ in argsets}) == 1, [], props, kind="struct", fn=f"{PQ}.get_planar",
                    note="how the parameter vector is laid out (weight / u / bias) is an implementation choice; it must be the same for transform and inverse")
